@@ -147,6 +147,29 @@ pub fn do_marker2(ctx: &mut Ctx, x: char, seg1: &[u8], y: char, seg2: &[u8]) {
     }
 }
 
+/// a colour code (^0..^7, ^9) inside a codepage run changes nothing about the codepage: "^X" seg1 "^d" seg2
+pub fn do_colour(ctx: &mut Ctx, x: char, seg1: &[u8], d: char, seg2: &[u8]) {
+    let mut b = vec![b'^', x as u8];
+    b.extend_from_slice(seg1);
+    b.push(b'^');
+    b.push(d as u8);
+    b.extend_from_slice(seg2);
+    do_dec(ctx, &b, true);
+    if seg1.contains(&b'^') || seg2.contains(&b'^') { return; }
+    let ex = match spec_enc(x) { Some(e) => e, None => return };
+    let mut want = String::new();
+    if x == '8' { want.push_str("^8"); }
+    want.push_str(&dec_bytes(ex, seg1));
+    want.push('^');
+    want.push(d);
+    want.push_str(&dec_bytes(ex, seg2));
+    let got = real_dec(&b);
+    if got.as_deref() != Some(want.as_str()) {
+        let sig = if dec_bytes(ex, seg1).ends_with('\u{fffd}') { "c10/marker2/dangling-lead-byte".to_string() } else { format!("c10/colour/{}{}", x, d) };
+        ctx.violation(&sig, "a colour code inside a codepage run changed how the bytes after it are read", &format!("cp.dec {}", hex(&b)), &cps(&want), &format!("{:?}", got.map(|s| cps(&s))));
+    }
+}
+
 pub fn resolve(outdir: &std::path::Path) {
     // turn the model's plan lines into strings by running encoding_rs on each segment, with the code's own table
     let text = std::fs::read_to_string(outdir.join("model.txt")).unwrap_or_default();
@@ -277,6 +300,15 @@ pub fn run(ctx: &mut Ctx) {
         for y in "LGCETBJHSK8".chars() {
             for (s1, s2) in [(&[0xE0u8, 0x61][..], &[0xE9u8, 0x62][..]), (&[0x61][..], &[0xF8, 0xFE, 0x20][..]), (&[][..], &[0xC4][..]), (&[0x41, 0x42][..], &[0x63, 0x61, 0x66, 0xE9][..]), (&[0xE0u8, 0x61][..], &[][..]), (&[][..], &[][..])] {
                 do_marker2(ctx, x, s1, y, s2);
+            }
+        }
+    }
+    // every marker x every colour digit (^8 is a marker, not a colour) with high bytes on both sides
+    for x in "LGCETBJHSK8".chars() {
+        for d in "01234567 9".chars() {
+            if d == ' ' { continue; }
+            for (s1, s2) in [(&[0xF8u8, 0xFE][..], &[0xF8u8, 0xFE][..]), (&[0x61][..], &[0xE9, 0x62][..]), (&[][..], &[0xC4, 0xE0][..]), (&[0xE0, 0x61][..], &[][..])] {
+                do_colour(ctx, x, s1, d, s2);
             }
         }
     }
